@@ -52,6 +52,8 @@ def main():
                 r = sh("git", "-C", "/repo", "apply", "--3way", diff)
                 if r.returncode != 0:
                     print(pid, stem, "DOES NOT APPLY:", r.stderr[-300:])
+                    # leave /repo clean: a half-applied patch must never reach the next commit
+                    sh("git", "-C", "/repo", "reset", "-q", "--hard")
                     continue
             else:
                 sh("git", "-C", "/repo", "apply", diff)
